@@ -104,3 +104,74 @@ def SubTl.valueAt (s : SubTl α) (t : α) (hint : Nat) (ovr : Bool) : Option (Ex
   match s.boundingFrames t hint ovr with
   | none => none
   | some (a, b) => some (interpolate a b t)
+
+/-! ## a linear-time `from_keyframes` for the compiled driver
+
+`fkStep` appends to the end of two lists, as the `Vec::push` of the Rust loop does — on a `List` that is quadratic, and
+a timeline of 70 000 keyframes (more than a 16-bit index can count) would take minutes.  The version below conses onto
+reversed lists and carries the length; it is *proved* equal to `SubTl.fromKeyframes` and registered with `@[csimp]`, so the
+compiler uses it wherever the model calls `fromKeyframes` while every theorem keeps talking about the definition above. -/
+
+structure FkAccR (α : Type) where
+  framesRev : List (Frame α)
+  n : Nat
+  mapRev : List Nat
+  curEasing : Easing
+  hasData : Bool
+
+def fkStepR (dflt : Val α) (st : FkAccR α) (kf : PKeyframe α) : FkAccR α :=
+  let framesRev := if st.n == 0 && lit 0 < kf.time then (⟨lit 0, dflt, st.curEasing⟩ : Frame α) :: st.framesRev else st.framesRev
+  let n := if st.n == 0 && lit 0 < kf.time then st.n + 1 else st.n
+  match kf.value with
+  | some v =>
+    let cur := match kf.easing with | some e => e | none => st.curEasing
+    ⟨⟨kf.time, v, cur⟩ :: framesRev, n + 1, (max (n + 1) 1 - 1) :: st.mapRev, cur, true⟩
+  | none => ⟨framesRev, n, (max n 1 - 1) :: st.mapRev, st.curEasing, st.hasData⟩
+
+def SubTl.fromKeyframesFast (kfs : List (PKeyframe α)) (dflt : Val α) (e0 : Easing) : SubTl α :=
+  let st := kfs.foldl (fkStepR dflt) ⟨[], 0, [], e0, false⟩
+  if !st.hasData then SubTl.empty else
+  let framesRev := match st.framesRev with
+    | f :: _ => if f.time < lit 1 then (⟨lit 1, f.value, f.easing⟩ : Frame α) :: st.framesRev else st.framesRev
+    | [] => st.framesRev
+  ⟨framesRev.reverse, st.mapRev.reverse, none⟩
+
+/-- the two loop states describe the same thing -/
+def FkAcc.Rel (st : FkAcc α) (r : FkAccR α) : Prop :=
+  st.frames = r.framesRev.reverse ∧ r.n = st.frames.length ∧ st.indexMap = r.mapRev.reverse ∧
+    st.curEasing = r.curEasing ∧ st.hasData = r.hasData
+
+theorem fkStep_rel (dflt : Val α) (st : FkAcc α) (r : FkAccR α) (kf : PKeyframe α) (h : st.Rel r) :
+    (fkStep dflt st kf).Rel (fkStepR dflt r kf) := by
+  obtain ⟨hf, hn, hm, he, hd⟩ := h
+  have hemp : st.frames.isEmpty = (r.n == 0) := by
+    rw [hn]; cases st.frames <;> simp
+  unfold fkStep fkStepR FkAcc.Rel
+  rw [hemp]
+  cases hc : (r.n == 0 && decide (lit 0 < kf.time)) <;> cases hv : kf.value <;> simp only [hc, if_true, if_false, Bool.false_eq_true]
+  all_goals (refine ⟨?_, ?_, ?_, ?_, ?_⟩ <;> simp [hf, hn, hm, he, hd] <;> try omega)
+
+theorem fk_fold_rel (dflt : Val α) (kfs : List (PKeyframe α)) (st : FkAcc α) (r : FkAccR α) (h : st.Rel r) :
+    (kfs.foldl (fkStep dflt) st).Rel (kfs.foldl (fkStepR dflt) r) := by
+  induction kfs generalizing st r with
+  | nil => exact h
+  | cons k rest ih => exact ih _ _ (fkStep_rel dflt st r k h)
+
+theorem SubTl.fromKeyframes_eq_fast (kfs : List (PKeyframe α)) (dflt : Val α) (e0 : Easing) :
+    SubTl.fromKeyframes kfs dflt e0 = SubTl.fromKeyframesFast kfs dflt e0 := by
+  have h := fk_fold_rel dflt kfs ⟨[], [], e0, false⟩ ⟨[], 0, [], e0, false⟩ ⟨rfl, rfl, rfl, rfl, rfl⟩
+  obtain ⟨hf, _, hm, _, hd⟩ := h
+  unfold SubTl.fromKeyframes SubTl.fromKeyframesFast
+  simp only [hd]
+  split
+  · rfl
+  · rw [hf, hm]
+    cases hr : (kfs.foldl (fkStepR dflt) ⟨[], 0, [], e0, false⟩).framesRev with
+    | nil => simp
+    | cons f rest =>
+      simp only [List.reverse_cons, List.getLast?_append, List.getLast?_singleton, Option.some_or]
+      split <;> simp
+
+@[csimp] theorem SubTl.fromKeyframes_csimp : @SubTl.fromKeyframes = @SubTl.fromKeyframesFast := by
+  funext α _ kfs dflt e0
+  exact SubTl.fromKeyframes_eq_fast kfs dflt e0
